@@ -12,12 +12,12 @@ package webrtc
 // extension lookup are functions of the object and the key and write nothing of this package.
 //@ func (*sdp.SessionDescription).Attribute
 //@ trusted
-//@ props C25 C30
+//@ props C25 C30 C03
 //@ ensures ret0 == ufstr("sattr", s, key) && ret1 == ufbool("sattrok", s, key)
 //@ modifies nothing
 //@ func (*sdp.MediaDescription).Attribute
 //@ trusted
-//@ props C25 C30
+//@ props C25 C30 C03
 //@ ensures ret0 == ufstr("mattr", d, key) && ret1 == ufbool("mattrok", d, key)
 //@ modifies nothing
 //@ func ice.UnmarshalCandidate
